@@ -409,8 +409,13 @@ def run_sync_side(spec: dict, fault: Optional[Fault] = None, steps: Optional[int
                 side.term = _term_of(exc, fault)
             side.inputs_after = _snapshot(P)
         elif tool.kind == "tee":
-            children = tool.sync(S, F, P)
+            children = list(tool.sync(S, F, P))
             for c in ops or []:
+                if isinstance(c, list):  # ["close", child]: itertools.tee children are simply dropped
+                    children[c[1]] = None
+                    continue
+                if children[c] is None:
+                    continue
                 CTX.ev("step", c)
                 try:
                     item = next(children[c])
@@ -505,7 +510,18 @@ def run_async_side(spec: dict, flavours: Optional[List[str]] = None, fn_flavours
     async def tee_main():
         handle = tool.make(S, F, P)
         side.handle = handle
+        closed = set()
         for c in ops or []:
+            if isinstance(c, list):
+                try:
+                    await handle[c[1]].aclose()
+                except BaseException as exc:  # noqa: BLE001
+                    CTX.ev("close-raised", c[1], type(exc).__name__)
+                    side.out.append((c[1], ("close-raised", type(exc).__name__)))
+                closed.add(c[1])
+                continue
+            if c in closed:
+                continue
             CTX.ev("step", c)
             try:
                 item = await handle[c].__anext__()
